@@ -15,6 +15,7 @@
 """
 from __future__ import annotations
 
+import gc
 import hashlib
 import json
 import multiprocessing
@@ -97,8 +98,14 @@ def _observe_all(cases, procs):
     size = max(50, (len(cases) + procs * 4 - 1) // (procs * 4))
     chunks = [cases[i:i + size] for i in range(0, len(cases), size)]
     slim = [[dict(text=c["text"], textsp=c["textsp"]) for c in ch] for ch in chunks]
-    with multiprocessing.get_context("fork").Pool(procs) as pool:
-        outs = pool.map(drv.run_chunk, slim)
+    # the parent holds the whole universe: keep the collector (and copy-on-write) off those objects in the children
+    gc.collect()
+    gc.freeze()
+    try:
+        with multiprocessing.get_context("fork").Pool(procs) as pool:
+            outs = pool.map(drv.run_chunk, slim)
+    finally:
+        gc.unfreeze()
     return [o for ch in outs for o in ch]
 
 
